@@ -10,6 +10,7 @@ Case (sx):  [prog, [timer ticks], [[iteration, front?]...], K, fuel]
   prog:  [0] skip | [1,p,q] seq | [2,id,d] sleep d ticks | [3,id] coro_yield | [4,id] cancel_shielded_coro_yield
        | [5,d] block (clock += d, no yield) | [6,id,kind,pre,[delay]|[],body] scope (kind 0 move_on_after /
          open_cancel_scope when no delay, 1 timeout; pre = cancel() before __enter__) | [7,id,body] ignore_cancellation
+       | [11,id,d] await a future that FAILS (set_exception) after d ticks
        | [8,k] k-th enclosing scope .cancel() | [9,k,[d]|[]] .reschedule(now+d | inf) | [10,id,c,body] try/except
          (c: 0 CancelledError, 1 TimeoutError, 2 BaseException)
   K: after K consecutive busy loop iterations (ready queue never empty) the clock has reached the next timer
@@ -18,7 +19,7 @@ Output: [[events], outcome, task.cancelling()]; events [0,id,t] start, [1,id,t] 
   cancelled_caught,cancelling,swallowed-or-TimeoutError-raised,exc-class-given-to-__exit__], [3,id,t,exc] caught,
   [4,t,n,sh] the controller's task.cancel() returned True while n active scopes already had cancel_called (sh: the
   program was inside ignore_cancellation / a shielded yield),
-  [5,id,t] the program called cancel() on the scope opened by statement id.
+  [5,id,t] the program called cancel() on the scope opened by statement id, [6,id,t,[deadline]|[]] .reschedule().
 """
 from __future__ import annotations
 
@@ -362,6 +363,16 @@ async def _ex(n, env):
     elif op == 9:
         if n[1] < len(env.scopes):
             env.scopes[-1 - n[1]].reschedule(env.loop.time() + n[2][0] * TICK if n[2] else math.inf)
+            env.events.append([6, env.scope_ids[-1 - n[1]], env.now(), [env.now() + n[2][0]] if n[2] else []])
+    elif op == 11:
+        env.events.append([0, n[1], env.now()])
+        fut = env.loop.create_future()
+        h = env.loop.call_later(n[2] * TICK, lambda: fut.done() or fut.set_exception(RuntimeError("failing future")))
+        try:
+            await fut
+        finally:
+            h.cancel()
+        env.events.append([1, n[1], env.now()])
     elif op == 10:
         cls = (asyncio.CancelledError, TimeoutError, BaseException)[min(n[2], 2)]
         try:
@@ -380,6 +391,7 @@ def run_raw(inp):
     loop = _Loop(K, [(n, bool(f)) for n, f in turns])
     try:
         asyncio.set_event_loop(loop)
+        loop.set_exception_handler(lambda _loop, _ctx: None)
         env = _Env(loop, AsyncIOBackend())
         task = loop.create_task(_ex(prog, env))
         env.task = loop.target = task
@@ -436,7 +448,8 @@ def seq(*ps):
 
 def features(p, acc=None, depth=0, shield=False):
     acc = acc if acc is not None else dict(nodes=0, depth=0, shield=False, catch=False, resched=False, cancel=False,
-                                           pre=False, block=False, shyield=False, timeoutk=False, scope=False)
+                                           pre=False, block=False, shyield=False, timeoutk=False, scope=False,
+                                           fail=False)
     op = p[0]
     if op == 1:
         features(p[1], acc, depth, shield)
@@ -445,7 +458,9 @@ def features(p, acc=None, depth=0, shield=False):
     if op != 0:
         acc["nodes"] += 1
     acc["depth"] = max(acc["depth"], depth)
-    if op == 4:
+    if op == 11:
+        acc["fail"] = True
+    elif op == 4:
         acc["shyield"] = True
     elif op == 5:
         acc["block"] = True
@@ -487,6 +502,8 @@ def gen_prog(rng, ids, budget, depth, nscopes, full, maxdepth=3):
             stmts.append([2, ids(), rng.choice([0, 1, 1, 2, 2, 3, 4])])
         elif r < 0.80:
             stmts.append([3, ids()])
+        elif full and r < 0.815:
+            stmts.append([11, ids(), rng.choice([0, 1, 1, 2])])
         elif full and r < 0.84:
             stmts.append([4, ids()])
         elif full and r < 0.88:
@@ -580,6 +597,61 @@ def family3(rng, thorough):
     return out
 
 
+def family4():
+    """Deadlines given from inside the body and deadlines equal to "now": a scope of every kind entered WITHOUT a
+    deadline (open_cancel_scope / timeout(inf), or after reschedule(inf)) and given one by reschedule(now + d), d = 0 (a
+    deadline equal to the current time), 1, 2; scopes entered exactly at their deadline (delay 0); the body then runs a
+    bare checkpoint / a sleep of c ticks, and a sleep."""
+    out = []
+    for kind in (0, 1):
+        for d in (0, 1, 2):
+            for c in (0, 1, 2, 3):
+                for shape in ("none-then-set", "unset-then-set", "outer-set"):
+                    ids = _Ids()
+                    sc = ids()
+                    first = [3, ids()] if c == 0 else [2, ids(), c]
+                    if shape == "none-then-set":
+                        p = seq([6, sc, kind, 0, [], seq([9, 0, [d]], first, [2, ids(), 1])], [3, ids()])
+                    elif shape == "unset-then-set":
+                        p = seq([6, sc, kind, 0, [3], seq([9, 0, []], [9, 0, [d]], first, [2, ids(), 1])], [3, ids()])
+                    else:
+                        inner = ids()
+                        p = seq([6, sc, kind, 0, [], seq([6, inner, 0, 0, [3], seq([9, 1, [d]], first)], [2, ids(), 1])],
+                                [3, ids()])
+                    out.append((p, "family4-" + shape))
+        for c in (0, 1, 2):
+            ids = _Ids()
+            sc = ids()
+            first = [3, ids()] if c == 0 else [2, ids(), c]
+            out.append((seq([6, sc, kind, 0, [0], seq(first, [2, ids(), 1])], [3, ids()]), "family4-enter-at-deadline"))
+            ids = _Ids()
+            sc = ids()
+            out.append((seq([2, ids(), 1], [6, sc, kind, 0, [0], seq([3, ids()], [3, ids()])], [3, ids()]),
+                        "family4-enter-at-deadline"))
+    return out
+
+
+def family5():
+    """An awaited future that FAILS (exception, not cancellation) inside ignore_cancellation, with a one-shot cancel from
+    the controller in the same loop iteration (every iteration and queue position is tried): the cancellation swallowed
+    by the shield must still be delivered at the next unshielded await."""
+    out = []
+    for d in (1, 2):
+        for pre in (0, 1):
+            for wrapk in ("catch", "scope-catch", "bare"):
+                ids = _Ids()
+                body = seq(*([[2, ids(), 1]] if pre else []), [11, ids(), d])
+                sh = [7, ids(), body]
+                if wrapk == "catch":
+                    p = seq([10, ids(), 2, sh], [2, ids(), 2], [3, ids()])
+                elif wrapk == "scope-catch":
+                    p = seq([6, ids(), 0, 0, [5], seq([10, ids(), 2, sh], [2, ids(), 2])], [3, ids()])
+                else:
+                    p = seq(sh, [2, ids(), 2])
+                out.append((p, "family5-" + wrapk))
+    return out
+
+
 def wrap(p, ids):
     """try: p except BaseException: pass; two checkpoints (exposes a cancellation still pending after the program)"""
     return seq([10, ids(), 2, p], [3, ids()], [3, ids()])
@@ -593,7 +665,7 @@ def nontrivial_of(inp, out):
 def tags_of(p, inp, sched_tag, src):
     f = features(p)
     tags = [src, sched_tag, f"K{inp[3]}", f"nodes{min(f['nodes'], 9)}", f"depth{f['depth']}"]
-    tags += [k for k in ("shield", "catch", "resched", "cancel", "pre", "block", "shyield", "timeoutk") if f[k]]
+    tags += [k for k in ("shield", "catch", "resched", "cancel", "pre", "block", "shyield", "timeoutk", "fail") if f[k]]
     return tags
 
 
@@ -635,6 +707,16 @@ def cases(tier, rng, escalate):
         for inp, stag, out in schedules(p, K, rng, False, 4):
             out = out if out is not None else run_impl(inp)
             yield dict(input=inp, tags=tags_of(p, inp, stag, src), nontrivial=nontrivial_of(inp, out))
+    for p, src in family4():
+        K = rng.choice([1, 2, 3, 4])
+        for inp, stag, out in schedules(p, K, rng, False, 3):
+            out = out if out is not None else run_impl(inp)
+            yield dict(input=inp, tags=tags_of(p, inp, stag, src), nontrivial=nontrivial_of(inp, out))
+    for p, src in family5():
+        for K in ((1, 2, 3) if thorough else (2,)):
+            for inp, stag, out in schedules(p, K, rng, True, 0):
+                out = out if out is not None else run_impl(inp)
+                yield dict(input=inp, tags=tags_of(p, inp, stag, src), nontrivial=nontrivial_of(inp, out))
     nrand = 5000 if thorough else 900
     for i in range(nrand):
         ids = _Ids()
@@ -658,7 +740,7 @@ def _walk(p, path, acc):
     if op == 1:
         _walk(p[1], path, acc)
         _walk(p[2], path, acc)
-    elif op in (2, 3, 4):
+    elif op in (2, 3, 4, 11):
         acc[p[1]] = (p, path)
     elif op == 6:
         acc[p[1]] = (p, path)
@@ -682,6 +764,31 @@ def _has(p, ops):
         return _has(p[2], ops)
     if p[0] == 10:
         return _has(p[3], ops)
+    return False
+
+
+def _unshielded_blocking(p):
+    if p[0] in (2, 3, 11):
+        return True
+    if p[0] == 1:
+        return _unshielded_blocking(p[1]) or _unshielded_blocking(p[2])
+    if p[0] == 6:
+        return _unshielded_blocking(p[5])
+    if p[0] == 10:
+        return _unshielded_blocking(p[3])
+    return False
+
+
+def _catch_can_swallow_cancel(p):
+    """some try/except CancelledError|BaseException has an await point outside every shield in its body"""
+    if p[0] == 10:
+        return (p[2] in (0, 2) and _unshielded_blocking(p[3])) or _catch_can_swallow_cancel(p[3])
+    if p[0] == 1:
+        return _catch_can_swallow_cancel(p[1]) or _catch_can_swallow_cancel(p[2])
+    if p[0] == 6:
+        return _catch_can_swallow_cancel(p[5])
+    if p[0] == 7:
+        return _catch_can_swallow_cancel(p[2])
     return False
 
 
@@ -735,7 +842,8 @@ def oracle(inp):
                     f"exited with task.cancelling()={cancelling} although nobody outside the scopes cancelled the task")
     # once the controller's task.cancel() was accepted, no blocking statement outside a shield completes any more
     # (programs without try/except: nothing may swallow the CancelledError but a scope that was itself cancelled)
-    if not _has(prog, (10,)):
+    if not _catch_can_swallow_cancel(prog):
+        no_scope_cancelled = not any(x[0] == 2 and x[3] for x in evs)
         seen_ext = False
         fresh = False      # some accepted cancel arrived outside every shield while NO active scope had cancel_called yet
         for e in evs:
@@ -745,7 +853,7 @@ def oracle(inp):
             elif seen_ext and e[0] == 1 and nodes[e[1]][0][0] in (2, 3) and not any(q[0] == 7 for q in nodes[e[1]][1]):
                 swallowed = [x[1] for x in evs if x[0] == 2 and x[6]]
                 kind = "lost-external-cancel" if swallowed else "lost-cancel"
-                if fresh:
+                if fresh or no_scope_cancelled:
                     # not the history of the known findings (a cancel racing with / overwritten by the cancel of a scope
                     # that was ALREADY cancelled): nothing may claim a cancellation that arrived first
                     kind += "-no-scope-was-cancelled"
@@ -756,11 +864,15 @@ def oracle(inp):
     # (the unchanged code itself lets a cancelled scope fall silent when, while a foreign cancellation postponed by a
     #  shield is pending, the program's own try/except swallows that foreign CancelledError: such programs are skipped)
     swallow_in_window = _has(prog, (4, 7)) and _has_catch_cancel(prog)
-    cancelled_at = {}
+    cancelled_at = {}       # scope id -> why the scope is certainly cancelled from now on
     started_after = set()
     for e in ([] if swallow_in_window else evs):
         if e[0] == 5:
-            cancelled_at.setdefault(e[1], True)
+            cancelled_at.setdefault(e[1], "cancel")
+        elif e[0] == 6 and e[3] and e[3][0] <= e[2]:
+            cancelled_at.setdefault(e[1], "expired")       # rescheduled to a deadline that is not in the future
+        elif e[0] == 0 and e[1] in nodes and nodes[e[1]][0][0] == 6 and nodes[e[1]][0][4] == [0]:
+            cancelled_at.setdefault(e[1], "expired")       # entered exactly at its deadline
         elif e[0] == 0 and e[1] in nodes and nodes[e[1]][0][0] in (2, 3):
             encl = [q[1] for q in nodes[e[1]][1] if q[0] == 6]
             if any(c in cancelled_at for c in encl) and not any(q[0] == 7 for q in nodes[e[1]][1]):
@@ -769,28 +881,35 @@ def oracle(inp):
                 started_after.discard(e[1])
         elif e[0] == 1 and e[1] in started_after:
             which = [c for c in (q[1] for q in nodes[e[1]][1] if q[0] == 6) if c in cancelled_at]
-            return (f"late-completion-after-cancel: statement {e[1]} started and completed (tick {e[2]}) inside scope(s) "
-                    f"{which} after the program had called cancel() on them")
+            if any(cancelled_at[c] == "cancel" for c in which):
+                return (f"late-completion-after-cancel: statement {e[1]} started and completed (tick {e[2]}) inside "
+                        f"scope(s) {which} after the program had called cancel() on them")
+            return (f"late-completion-expired-deadline: statement {e[1]} started and completed (tick {e[2]}) inside scope(s) "
+                    f"{which} that had been entered / rescheduled with a deadline not in the future")
         elif e[0] == 2:
             cancelled_at.pop(e[1], None)
     # a sleep that started when an enclosing (not shield-separated) scope's deadline had been reached, or that was
     # still running strictly after it, must not complete (programs without reschedule)
-    if not _has(prog, (9,)) and not swallow_in_window:
-        enter = {}
-        start = {}
+    if not swallow_in_window:
+        deadline = {}       # scope id -> deadline currently in force (None = inf), following reschedule()
+        at_start = {}
         for e in evs:
-            if e[0] == 0:
-                (enter if nodes[e[1]][0][0] == 6 else start)[e[1]] = e[2]
-            elif e[0] == 1 and nodes[e[1]][0][0] == 2 and nodes[e[1]][0][2] > 0:
-                node, path = nodes[e[1]]
-                if any(q[0] == 7 for q in path):
-                    continue    # the whole task is shielded there, including cancellations of scopes inside the shield
-                for q in reversed(path):
-                    if q[0] == 6 and q[4] and q[1] in enter:
-                        dl = enter[q[1]] + q[4][0]
-                        if dl < e[2]:
-                            return (f"late-completion: sleep {e[1]} completed at tick {e[2]} inside scope {q[1]} whose "
-                                    f"deadline was tick {dl}")
+            if e[0] == 0 and e[1] in nodes and nodes[e[1]][0][0] == 6:
+                q = nodes[e[1]][0]
+                deadline[e[1]] = e[2] + q[4][0] if q[4] else None
+            elif e[0] == 6:
+                deadline[e[1]] = e[3][0] if e[3] else None
+            elif e[0] == 2:
+                deadline.pop(e[1], None)
+            elif e[0] == 0 and e[1] in nodes and nodes[e[1]][0][0] == 2 and nodes[e[1]][0][2] > 0:
+                path = nodes[e[1]][1]
+                at_start[e[1]] = ({} if any(q[0] == 7 for q in path)
+                                  else {q[1]: deadline.get(q[1]) for q in path if q[0] == 6})
+            elif e[0] == 1 and e[1] in at_start:
+                for sid, dl in at_start[e[1]].items():
+                    if dl is not None and dl < e[2]:
+                        return (f"late-completion: sleep {e[1]} completed at tick {e[2]} inside scope {sid} whose "
+                                f"deadline was tick {dl}")
     return None
 
 
